@@ -20,6 +20,7 @@ package datasource
 import (
 	"database/sql"
 	"reflect"
+	"strings"
 )
 
 type nullTime = sql.NullTime
@@ -47,7 +48,9 @@ func GetScanSlice(types []*sql.ColumnType) []interface{} {
 	for _, tpy := range types {
 		switch tpy.ScanType() {
 		case ScanTypeFloat32:
-			scanVal := float32(0)
+			// the images hold a FLOAT as the float64 nearest to its decimal text,
+			// which widening the float32 does not give
+			scanVal := float64(0)
 			scanSlice = append(scanSlice, &scanVal)
 		case ScanTypeFloat64:
 			scanVal := float64(0)
@@ -86,8 +89,14 @@ func GetScanSlice(types []*sql.ColumnType) []interface{} {
 			scanVal := uint64(0)
 			scanSlice = append(scanSlice, &scanVal)
 		case ScanTypeRawBytes:
-			scanVal := ""
-			scanSlice = append(scanSlice, &scanVal)
+			// character data may be NULL; a DECIMAL is held by the images as a float64
+			if strings.EqualFold(tpy.DatabaseTypeName(), "DECIMAL") {
+				scanVal := sql.NullFloat64{}
+				scanSlice = append(scanSlice, &scanVal)
+			} else {
+				scanVal := sql.NullString{}
+				scanSlice = append(scanSlice, &scanVal)
+			}
 		case ScanTypeUnknown:
 			scanVal := new(interface{})
 			scanSlice = append(scanSlice, &scanVal)
